@@ -47,15 +47,14 @@ def keep (e : Ev) (s : State) : Bool :=
     | .pull => s.fpc == .check i
     | .submit => s.fpc == .hold i
     | .preFail => s.fpc == .hold i
-    | .start => s.running.getLast? == some i
     | .yld => s.out.getLast? == some i
     | _ => true
 
 def parseAct (name : String) (idx : Option Nat) : Option Act :=
   match name with
   | "pull" => some .pull | "srcEnd" => some .srcEnd | "srcRaise" => some .srcRaise
-  | "submit" => some .submit | "preFail" => some .preFail | "start" => some .start
-  | "finish" => idx.map .finish
+  | "submit" => some .submit | "preFail" => some .preFail
+  | "start" => idx.map .start | "finish" => idx.map .finish
   | "yld" => some .yld | "next" => some .next | "close" => some .close | "join" => some .join
   | _ => none
 
@@ -109,7 +108,8 @@ partial def loop (h : IO.FS.Stream) (st : St) : IO Unit := do
     let kv := Drv.kvs rest
     let fin := tauClose (sys st.cfg) st.fuel st.ss
     let wantFinal := Drv.getN kv "final" == 1
-    let good := fin.filter (fun s => summaryOk kv s && (!wantFinal || decide (Final s)))
+    let partialRun := Drv.getN kv "partial" == 1
+    let good := fin.filter (fun s => partialRun || (summaryOk kv s && (!wantFinal || decide (Final s))))
     if good.isEmpty then
       let descr := match fin.head? with
         | some s => s!"out={s.out.length} raised={showRaised s.raised} close={s.closeReq} cpc={repr s.cpc} fpc={repr s.fpc}"
